@@ -1,1 +1,46 @@
-From WP Require Import iovec.Anchors.
+(* C10 - Arena memory is reclaimed: no leak after drop, bounded footprint in streaming (PARTIAL). *)
+From Coq Require Import List NArith Arith.
+From WPGen Require Import Params.
+From WP Require Import iovec.Anchors iovec.Arena iovec.ArenaProofs.
+Import ListNotations.
+Open Scope nat_scope.
+
+(* The chunk size policy (find_hint_size over the size sequence translated from the source): no
+   assertion fires, the chunk covers the request, and below the 1 MiB cap each new chunk of an arena
+   is strictly larger than the previous one and at most the cap -- so one arena (between two
+   flushes) creates at most |sequence| chunks smaller than 1 MiB, whatever is streamed through it. *)
+Theorem C10_find_hint_size (len prev : N) : (len <= USIZE_MAX)%N -> (prev <= USIZE_MAX)%N ->
+  exists h, find_hint_size len prev = HOk h /\ (len <= h)%N /\
+    ((len < max_seq)%N -> (h <= max_seq)%N /\ ((prev < max_seq)%N -> (prev < h)%N) /\ ((max_seq <= prev)%N -> h = max_seq)) /\
+    ((max_seq <= len)%N -> (h < len + BUMP_REGION_SIZE_FACTOR)%N \/ h = USIZE_MAX).
+Proof. exact (find_hint_size_spec len prev). Qed.
+Theorem C10_size_constants : max_seq = 1048576%N /\ BUMP_REGION_SIZE_FACTOR = 4096%N.
+Proof. destruct seq_facts as (A & B & _). split; assumption. Qed.
+
+(* liveness is derived from holders (Arc): a chunk referenced by a remaining slice is held; once the
+   deque is cleared or fully consumed no anchor -- hence no chunk -- is held by it *)
+Theorem C10_live_iff_held (ops : list op) :
+  let g := fold_left (fun g o => apply_op o g) ops {| slices := []; anchors := [] |} in
+  forall p c, nth_error (slices g) p = Some (Some c) -> held g c.
+Proof. intros g. exact (proj2 (Anchors.C05_core ops)). Qed.
+
+Lemma drain_all : forall l, drain (total l) l = [].
+Proof.
+  induction l as [|a l IH]; [reflexivity|]. cbn [drain]. rewrite total_cons.
+  assert (acount a <=? acount a + total l = true) as -> by (apply Nat.leb_le; apply Nat.le_add_r).
+  replace (acount a + total l - acount a) with (total l) by (rewrite Nat.add_comm; symmetry; apply Nat.add_sub). exact IH.
+Qed.
+Theorem C10_no_leak g : Inv g -> anchors (consume (length (slices g)) g) = [] /\ anchors (apply_op OpClear g) = [].
+Proof.
+  intros I. split; [|reflexivity]. cbn [consume anchors]. rewrite <- (inv_total g I). apply drain_all.
+Qed.
+
+Example C10_examples :
+  find_hint_size 1%N 0%N = HOk 4096%N /\ find_hint_size 1%N 4096%N = HOk 8192%N /\ find_hint_size 5000%N 0%N = HOk 8192%N /\
+  find_hint_size 1%N 1048575%N = HOk 1048576%N /\ find_hint_size 4096%N 2000000%N = HOk 1048576%N /\ find_hint_size 2000000%N 4096%N = HOk 2002944%N.
+Proof. vm_compute. repeat split; reflexivity. Qed.
+
+Print Assumptions C10_find_hint_size.
+Print Assumptions C10_size_constants.
+Print Assumptions C10_live_iff_held.
+Print Assumptions C10_no_leak.
